@@ -578,10 +578,11 @@ class LintJsonStream(Stream):
 
 
 import c04s12     # noqa: E402  (needs the helpers above)
+import c04s17     # noqa: E402
 
 PROPERTY = Property(
     pid="C04",
-    streams=[TreeStream(), Dep5Stream(), ProjectStream(), LintJsonStream()] + c04s12.STREAMS,
+    streams=[TreeStream(), Dep5Stream(), ProjectStream(), LintJsonStream()] + c04s12.STREAMS + c04s17.STREAMS,
     assumptions=[
         "glob matching of the [[annotations]] tables is a parameter of the model (decided by C05); the generator knows which tables match",
         "what reading the file's own source yields (tag extraction, binary detection, parse-error drop) is the generator's ground truth here and the subject of C02",
